@@ -43,13 +43,19 @@ func (m *Manager) AggregationLoop(ctx context.Context, errCh chan<- error) {
 	// transactions or every LazyBlockTime.
 	if m.config.Node.LazyMode {
 		if err := m.lazyAggregationLoop(ctx, blockTimer); err != nil {
-			errCh <- fmt.Errorf("error in lazy aggregation loop: %w", err)
+			select {
+			case errCh <- fmt.Errorf("error in lazy aggregation loop: %w", err):
+			default: // an error is already pending, only the first one is propagated
+			}
 		}
 		return
 	}
 
 	if err := m.normalAggregationLoop(ctx, blockTimer); err != nil {
-		errCh <- fmt.Errorf("error in normal aggregation loop: %w", err)
+		select {
+		case errCh <- fmt.Errorf("error in normal aggregation loop: %w", err):
+		default: // an error is already pending, only the first one is propagated
+		}
 	}
 }
 
